@@ -56,6 +56,7 @@ func (c *refineCheck) Gen(seed uint64, tier string) (*Scenario, error) {
 	if c.extra != nil {
 		ex = c.extra(rng, g)
 	}
+	ex = chain2(ex, edgeTraffic(rng, g))
 	for i := 0; i < p.Blocks; i++ {
 		if _, err := g.Step(ex); err != nil {
 			return nil, err
